@@ -224,9 +224,9 @@ PROPS = {
         "runs": {"quick": [fam("redef", 500, 0)], "thorough": [fam("redef", 40000, 0)]},
     },
     "C09": {
-        "claim": "Theorem redefine_ignores_original_behaviour; purity is structural in the model (redefine returns no state). Redefine is pure planning: no user function body runs during Redefine and no function object is disturbed. Tied to the code by execution counters around every Redefine and by histories interleaving Redefine and Call on shared function objects, replayed through the model with the memo cells threaded.",
+        "claim": "Theorems over the history model (Model/Hist.lean: Call and Redefine on shared function objects, run-once cells and execution counts threaded): redefines_transparent (refinement: a history shows in every Call, and leaves on the function objects, exactly what the same history without its Redefines does), redefines_keep_memo / call_after_redefines (a run-once function that has not run still runs, once, on its first real use), redefine_ignores_original_behaviour (no original body takes part in planning). The model's Redefine hands back no state by construction; that the code agrees is the correspondence: execution counters and snapshots of every function object's value sets around every real Redefine, histories interleaving filtered and unfiltered Redefine, direct calls, calls with options left out and calls through the redefined function, replayed through histCall / histRedefine with the memo cells threaded.",
         "note": "converter generators (user code run while the graph is built) are outside the statement.",
-        "theorems": ["ArgMapper.C09.redefine_ignores_original_behaviour", "ArgMapper.C09.redefine_deterministic"], "facts": {"r5SkipSame": "true", "r6NameTest": "true", "publishAfterUpdate": "true", "trackReaching": "true", "takeValuedNamed": "true", "hopCopies": "true", "memoCopy": "true", "r8SkipSupplied": "true", "skipRecordsInput": "false", "dupIsError": "true", "onceLockCoversCall": "true"},
+        "theorems": ["ArgMapper.C09.redefine_ignores_original_behaviour", "ArgMapper.C09.redefine_deterministic", "ArgMapper.C09.redefine_keeps_state", "ArgMapper.C09.redefines_transparent", "ArgMapper.C09.redefines_keep_memo", "ArgMapper.C09.call_after_redefines"], "facts": {"r5SkipSame": "true", "r6NameTest": "true", "publishAfterUpdate": "true", "trackReaching": "true", "takeValuedNamed": "true", "hopCopies": "true", "memoCopy": "true", "r8SkipSupplied": "true", "skipRecordsInput": "false", "dupIsError": "true", "onceLockCoversCall": "true"},
         "rule": "redef: any planning run.",
         "runs": {"quick": [fam("redef", 400, 0), fam("hist", 500, 0), fam("redefgen", 60, 0)],
                  "thorough": [fam("redef", 30000, 0), fam("hist", 40000, 0), fam("redefgen", 3000, 0)]},
